@@ -202,8 +202,9 @@ Definition snapshot_plan (d : db) (order : list str) (reclaim : bool) (fs : file
   let w0 := mkW EmptyString EmptyString (fsize fs2 FVals) (fsize fs2 FKeys) (open1 ++ open2) (d_map d) clock 0 in
   let w1 := fold_left (snap_one reclaim) (keys_to_update (d_map d) order reclaim) w0 in
   let close := emit FKeys (bw_flush (w_kbuf w1)) ++ emit FVals (bw_flush (w_vbuf w1)) ++
-               [OpCreate FMeta; OpWriteAt FMeta 0 (le_bytes 8 (d_id d)); OpWriteAt FMeta 8 (le_bytes 4 (strat_code (d_strat d)));
-                OpRemove FKeysOld] in
+               [OpCreate FMeta; OpWriteAt FMeta 0 (le_bytes 8 (d_id d)); OpWriteAt FMeta 8 (le_bytes 4 (strat_code (d_strat d)))] ++
+               (* remove_backup_key_file: only when the .old file exists *)
+               (match fget fs2 FKeysOld with Some _ => [OpRemove FKeysOld] | None => [] end) in
   (w_ops w1 ++ close, w_mem w1, w_clock w1).
 
 (* ---- the loader ----------------------------------------------------------------------- *)
@@ -380,3 +381,51 @@ Definition drestart (x : dnode) (load_order : list str) : rres :=
   let fresh := init_node (n_user n) (n_pwd n) (n_addr n) (n_pid n) (n_role n) (n_clock n) in
   fold_left (fun acc dbn => dload_one acc dbn (files_of x dbn)) load_order
             (RNode (mkDN fresh (dn_files x))).
+
+(* ---- crash = the process is killed right after its N-th write/pwrite/rename/unlink -------- *)
+Definition traced (o : fop) : bool := match o with OpCreate _ => false | _ => true end.
+
+Fixpoint take_traced (n : nat) (ops : list fop) : list fop :=
+  match n with
+  | O => []
+  | S k => match ops with
+           | [] => []
+           | o :: r => if traced o then o :: take_traced k r else o :: take_traced n r
+           end
+  end.
+
+Definition count_traced (ops : list fop) : nat := List.length (filter traced ops).
+
+(* snapshot_all_pendding_dbs killed after [n] traced operations: the files left behind *)
+Fixpoint dflush_crash_go (x : dnode) (q : list (str * bool)) (orders : list (list str)) (n : nat)
+  : list (str * files) :=
+  match q with
+  | [] => dn_files x
+  | (dbn, reclaim) :: rest =>
+      match get_db (dn_node x) dbn with
+      | None => dflush_crash_go x rest orders n
+      | Some d =>
+          let '(o, os) := match orders with o :: os => (o, os) | [] => ([], []) end in
+          let '(ops, _, _) := snapshot_plan d o reclaim (files_of x dbn) (n_clock (dn_node x)) in
+          let c := count_traced ops in
+          if Nat.leb c n then dflush_crash_go (dsnapshot x dbn reclaim o) rest os (n - c)
+          else assoc_set String.eqb dbn (apply_fops (files_of x dbn) (take_traced n ops)) (dn_files x)
+      end
+  end.
+
+Definition dflush_crash (x : dnode) (orders : list (list str)) (n : nat) : list (str * files) :=
+  dflush_crash_go (mkDN (n_set_snap (dn_node x) []) (dn_files x)) (rev (dedup_snap (n_snap (dn_node x)))) orders n.
+
+Definition dflush_traced_total (x : dnode) (orders : list (list str)) : nat :=
+  (fix go (x : dnode) (q : list (str * bool)) (orders : list (list str)) : nat :=
+     match q with
+     | [] => O
+     | (dbn, reclaim) :: rest =>
+         match get_db (dn_node x) dbn with
+         | None => go x rest orders
+         | Some d =>
+             let '(o, os) := match orders with o :: os => (o, os) | [] => ([], []) end in
+             let '(ops, _, _) := snapshot_plan d o reclaim (files_of x dbn) (n_clock (dn_node x)) in
+             (count_traced ops + go (dsnapshot x dbn reclaim o) rest os)%nat
+         end
+     end) (mkDN (n_set_snap (dn_node x) []) (dn_files x)) (rev (dedup_snap (n_snap (dn_node x)))) orders.
